@@ -125,6 +125,35 @@ func c09Compare(st *State, ref *c09Ref) {
 			sv.Assert(!ex, "absent-key-does-not-exist")
 		}
 	}
+	// iteration and range reads: the keys of the last commit, each with the value
+	// a point read returns now (session, block, commit), deleted ones skipped
+	var wantK, wantV [][]byte
+	for _, k := range c09Keys {
+		if _, inTree := ref.commited[string(k)]; !inTree {
+			continue
+		}
+		if v, present := ref.get(string(k)); present {
+			wantK, wantV = append(wantK, k), append(wantV, v)
+		}
+	}
+	for mode := 0; mode < 2; mode++ {
+		var gotK, gotV [][]byte
+		collect := func(key, value []byte) bool {
+			gotK, gotV = append(gotK, append([]byte{}, key...)), append(gotV, append([]byte{}, value...))
+			return false
+		}
+		if mode == 0 {
+			st.Iterate(collect)
+		} else {
+			st.IterateRange([]byte("k"), []byte("l"), true, collect)
+		}
+		sv.Assert(len(gotK) == len(wantK), "iteration-visits-the-visible-committed-keys")
+		if len(gotK) == len(wantK) {
+			for i := range gotK {
+				sv.Assert(bytes.Equal(gotK[i], wantK[i]) && bytes.Equal(gotV[i], wantV[i]), "iteration-returns-the-latest-write-in-scope")
+			}
+		}
+	}
 	// every saved version keeps its content
 	for vi, snap := range ref.versions {
 		for _, k := range c09Keys {
@@ -146,7 +175,7 @@ func c09Compare(st *State, ref *c09Ref) {
 //
 // sv:bounds sequence length L = 4 (quick) / 5 (thorough); 2 keys; values = 3 symbolic bytes each (assumed different from the TOMBSTONE marker, see SV_C09_tombstone_value); rotation setting recent=100 (all versions kept)
 // sv:outside IAVL's own correctness and hashing (stub: versioned ordered map); LevelDB durability; sequences longer than L; more than 2 keys
-// sv:goal after every step: Get == reference latest write (session, block, commit), deleted/absent keys read as absent and do not exist, every saved version keeps returning its content, reopen returns the last commit
+// sv:goal after every step: Iterate / IterateRange visit the keys of the last commit that are still visible, in order, with the value a point read returns; Get == reference latest write (session, block, commit), deleted/absent keys read as absent and do not exist, every saved version keeps returning its content, reopen returns the last commit
 func SV_C09_overlay_model() {
 	L := 4
 	if sv.Tier() > 0 {
